@@ -912,4 +912,166 @@ theorem lnot_eq_neg (x : Int) : lnot x = -x - 1 := by
   | ofNat n => show Int.negSucc n = -(Int.ofNat n) - 1; rw [Int.negSucc_eq]; simp; omega
   | negSucc n => show Int.ofNat n = -(Int.negSucc n) - 1; rw [Int.negSucc_eq]; simp
 
+theorem shr_mod2 (x k : Nat) : (x >>> k) % 2 = if x.testBit k then 1 else 0 := by
+  rw [Nat.testBit_eq_decide_div_mod_eq, Nat.shiftRight_eq_div_pow]
+  by_cases h : x / 2 ^ k % 2 = 1
+  · simp [h]
+  · simp [h]; omega
+
+/-- bit `i` of `y` is bit `i % 64` of limb `i / 64` of `y` -/
+theorem testBit_limbAt (y i : Nat) : y.testBit i = (y / B ^ (i / 64) % B).testBit (i % 64) := by
+  rw [B_pow]; unfold B
+  rw [Nat.testBit_mod_two_pow, Nat.testBit_div_two_pow]
+  have h1 : i % 64 < 64 := Nat.mod_lt _ (by decide)
+  have h2 : i % 64 + 64 * (i / 64) = i := by omega
+  simp [h1, h2]
+
+/-- decomposition of a limb vector at index `li` -/
+theorem val_split_at (l : List Nat) (li : Nat) (h : li < l.length) :
+    val l = val (l.take li) + B ^ li * (l.getD li 0 + B * val (l.drop (li + 1))) := by
+  rw [val_take_drop l li (by omega)]
+  congr 2
+  rw [List.drop_eq_getElem_cons h, val_cons]
+  congr 1
+  simp [List.getD_eq_getElem?_getD, h]
+
+theorem getD_lt {l : List Nat} (hl : Limbs l) (i : Nat) : l.getD i 0 < B := by
+  by_cases h : i < l.length
+  · rw [List.getD_eq_getElem?_getD, List.getElem?_eq_getElem h]; simp; exact hl _ (List.getElem_mem h)
+  · rw [List.getD_eq_getElem?_getD, List.getElem?_eq_none (by omega)]; simp; exact B_pos
+
+theorem val_limbAt (l : List Nat) (hl : Limbs l) (li : Nat) : val l / B ^ li % B = l.getD li 0 := by
+  by_cases h : li < l.length
+  · rw [val_split_at l li h]
+    have hlt := val_lt _ (Limbs_take hl li)
+    rw [List.length_take, Nat.min_eq_left (by omega)] at hlt
+    have hp := pow_B_pos li
+    rw [Nat.add_mul_div_left _ _ hp, Nat.div_eq_of_lt hlt, Nat.zero_add, Nat.add_mul_mod_self_left,
+      Nat.mod_eq_of_lt (getD_lt hl li)]
+  · have hlt := val_lt l hl
+    have : B ^ l.length ≤ B ^ li := Nat.pow_le_pow_right B_pos (by omega)
+    rw [Nat.div_eq_of_lt (lt_of_lt_of_le hlt this), Nat.zero_mod, List.getD_eq_getElem?_getD,
+      List.getElem?_eq_none (by omega)]; rfl
+
+theorem testBit_val (l : List Nat) (hl : Limbs l) (i : Nat) :
+    (val l).testBit i = (l.getD (i / 64) 0).testBit (i % 64) := by
+  rw [testBit_limbAt, val_limbAt l hl]
+
+theorem val_eq_zero_iff (l : List Nat) : val l = 0 ↔ l.any (· != 0) = false := by
+  induction l with
+  | nil => simp
+  | cons x xs ih =>
+    have hB := B_pos
+    simp only [val_cons, List.any_cons, Bool.or_eq_false_iff]
+    constructor
+    · intro h
+      have hx : x = 0 := by omega
+      have hv : val xs = 0 := by
+        rcases Nat.eq_zero_or_pos (val xs) with h0 | h0
+        · exact h0
+        · have : 0 < B * val xs := Nat.mul_pos hB h0
+          omega
+      exact ⟨by simp [hx], ih.mp hv⟩
+    · rintro ⟨h1, h2⟩
+      have hx : x = 0 := by simpa using h1
+      rw [hx, ih.mpr h2]; simp
+
+theorem lnot_ones (d : Nat) (hd : d < B) : lnotL ((negL d + B - 1) % B) = d := by
+  unfold lnotL negL; rw [B_eq] at *; omega
+theorem lnot_neg_pos (d : Nat) (hd : d < B) (h1 : 1 ≤ d) : lnotL (negL d) = d - 1 := by
+  unfold lnotL negL; rw [B_eq] at *; omega
+theorem lnot_neg_zero : lnotL (negL 0) = B - 1 := by
+  unfold lnotL negL; rw [B_eq]
+theorem twosLimb_lt (mag : List Nat) (li : Nat) : twosLimb mag li < B := by
+  unfold twosLimb negL; simp only; have := B_pos
+  split <;> exact Nat.mod_lt _ this
+
+/-- limb `li` of `|x| - 1` is the complement of the two's-complement limb the C computes
+    (tstbit.c:54-67): `-limb` below/at the lowest non-zero limb, `~limb` above it -/
+theorem limbAt_pred (mag : List Nat) (hl : Limbs mag) (h1 : 1 ≤ val mag) (li : Nat) (h : li < mag.length) :
+    (val mag - 1) / B ^ li % B = lnotL (twosLimb mag li) := by
+  have hs := val_split_at mag li h
+  have hlo := val_lt _ (Limbs_take hl li)
+  rw [List.length_take, Nat.min_eq_left (by omega)] at hlo
+  have hd := getD_lt hl li
+  have hp := pow_B_pos li
+  have hz := val_eq_zero_iff (mag.take li)
+  unfold twosLimb
+  simp only
+  generalize mag.getD li 0 = d at *
+  generalize val (mag.drop (li + 1)) = hi at *
+  generalize val (mag.take li) = lo at *
+  generalize hpe : B ^ li = p at *
+  rw [hs] at h1 ⊢
+  by_cases hany : (mag.take li).any (· != 0) = true
+  · rw [if_pos hany, lnot_ones d hd]
+    have hlo1 : 1 ≤ lo := by
+      rcases Nat.eq_zero_or_pos lo with h0 | h0
+      · rw [hz.mp h0] at hany; cases hany
+      · exact h0
+    have e : lo + p * (d + B * hi) - 1 = (lo - 1) + p * (d + B * hi) := by omega
+    rw [e, Nat.add_mul_div_left _ _ hp, Nat.div_eq_of_lt (by omega), Nat.zero_add,
+      Nat.add_mul_mod_self_left, Nat.mod_eq_of_lt hd]
+  · rw [if_neg hany]
+    have hlo0 : lo = 0 := hz.mpr (by simpa using hany)
+    subst hlo0
+    rw [Nat.zero_add] at h1 ⊢
+    have hw : 1 ≤ d + B * hi := by
+      rcases Nat.eq_zero_or_pos (d + B * hi) with h0 | h0
+      · rw [h0] at h1; simp at h1
+      · exact h0
+    obtain ⟨w, hw'⟩ : ∃ w, d + B * hi = w + 1 := ⟨d + B * hi - 1, by omega⟩
+    have e : p * (d + B * hi) - 1 = (p - 1) + p * w := by
+      rw [hw', Nat.mul_succ]; omega
+    rw [e, Nat.add_mul_div_left _ _ hp, Nat.div_eq_of_lt (by omega), Nat.zero_add]
+    have hweq : w = d + B * hi - 1 := by omega
+    rw [hweq]
+    by_cases hd0 : d = 0
+    · subst hd0
+      rw [lnot_neg_zero]
+      have hhi : 1 ≤ hi := by
+        rcases Nat.eq_zero_or_pos hi with h0 | h0
+        · subst h0; simp at hw
+        · exact h0
+      obtain ⟨k, hk⟩ : ∃ k, hi = k + 1 := ⟨hi - 1, by omega⟩
+      subst hk
+      have hB := B_pos
+      have : 0 + B * (k + 1) - 1 = (B - 1) + B * k := by rw [Nat.mul_succ]; omega
+      rw [this, Nat.add_mul_mod_self_left, Nat.mod_eq_of_lt (by omega)]
+    · rw [lnot_neg_pos d hd (by omega)]
+      have : d + B * hi - 1 = (d - 1) + B * hi := by omega
+      rw [this, Nat.add_mul_mod_self_left, Nat.mod_eq_of_lt (by omega)]
+
+/-- bit `i` (inside the operand) of `|x| - 1` -/
+theorem testBit_pred (mag : List Nat) (hl : Limbs mag) (h1 : 1 ≤ val mag) (i : Nat) (h : i / 64 < mag.length) :
+    (val mag - 1).testBit i = !(twosLimb mag (i / 64)).testBit (i % 64) := by
+  rw [testBit_limbAt, limbAt_pred mag hl h1 _ h, testBit_lnotL _ (twosLimb_lt _ _)]
+  have : i % 64 < 64 := Nat.mod_lt _ (by decide)
+  simp [this]
+
+theorem testBit_high (l : List Nat) (hl : Limbs l) (i : Nat) (h : l.length ≤ i / 64) (v : Nat) (hv : v ≤ val l) :
+    v.testBit i = false := by
+  apply Nat.testBit_lt_two_pow
+  have := val_lt l hl
+  rw [B_pow] at this
+  calc v ≤ val l := hv
+    _ < 2 ^ (64 * l.length) := this
+    _ ≤ 2 ^ i := Nat.pow_le_pow_right (by decide) (by omega)
+
+theorem mpz_tstbit_testBit (u : Z) (hu : u.WF) (i : Nat) :
+    mpz_tstbit u i = if testBit u.toInt i then 1 else 0 := by
+  unfold mpz_tstbit
+  simp only
+  cases hn : u.neg
+  · rw [toInt_nonneg u hn]
+    change _ = if (val u.mag).testBit i then 1 else 0
+    by_cases hli : i / 64 ≥ u.mag.length
+    · rw [if_pos hli, testBit_high u.mag hu.limbs i hli _ (le_refl _)]
+    · rw [if_neg hli, testBit_val u.mag hu.limbs, shr_mod2]; simp
+  · rw [toInt_neg u hn (hu.pos hn)]
+    change _ = if !(val u.mag - 1).testBit i then 1 else 0
+    by_cases hli : i / 64 ≥ u.mag.length
+    · rw [if_pos hli, testBit_high u.mag hu.limbs i hli _ (Nat.sub_le _ _)]; simp
+    · rw [if_neg hli, testBit_pred u.mag hu.limbs (hu.pos hn) i (by omega), shr_mod2]; simp
+
 end Mpir.Bits
